@@ -65,6 +65,7 @@ static void dump_dec(const char *pfx, htp_decoder_cfg_t *d) {
     (void) pfx;
 }
 
+void htp_verif_trace(int id) { (void) id; }
 #include "consts_all.h"
 
 int main(void) {
